@@ -198,6 +198,9 @@ def c20(tier):
     # the operation is a function of its arguments and the table: no scratch kept between calls (two threads, two tables)
     selftest.run(P, C, ('re1',))
     dp.re1(P, C)
+    # release sizes of the key store; the stacking constructor's coefficient interleave
+    ax.km7(P, C)
+    st.fc2(P, C)
     return C.finish()
 
 
@@ -295,6 +298,7 @@ def c15(tier):
     # the operation is a function of its arguments and the table: no scratch kept between calls (two threads, two tables)
     selftest.run(P, C, ('re1',))
     dp.re1(P, C)
+    fs.fs15(P, C)
     return C.finish()
 
 
@@ -320,6 +324,7 @@ def c16(tier):
     # a typed read denotes the stored string: nothing of an earlier read (stream state, scratch) is kept between calls
     selftest.run(P, C, ('re1',))
     dp.re1(P, C)
+    ax.km7(P, C)
     return C.finish()
 
 
@@ -628,6 +633,8 @@ def c06(tier):
     st.st1(P, C, only=('read_fits_core',))
     # ... and what the writer writes the reader accepts: no operation hands the writer a dimension with fewer than order+1 coefficients
     vg.vg6(P, C)
+    # legacy files without PERIODn keys: period 0, not what the allocation held
+    fs.fs15(P, C)
     return C.finish()
 
 
